@@ -118,7 +118,7 @@ pub fn inline_menu() -> Vec<Vec<N>> {
         vec![t("qk"), e("br", vec![]), t("ql")],
         vec![ea("img", &[("src", "/s"), ("alt", "qm")], vec![])],
         vec![e("strong", vec![t("qn"), e("code", vec![t("qo")])]), t("qp")],
-        vec![e("del", vec![t("qs")]), t(" e\u{301}t")],
+        vec![e("del", vec![t("qs qu")]), t(" e\u{301}t")],
     ]
 }
 
